@@ -1083,6 +1083,8 @@ class BaseOdeModel(object):
                 self._explicitOde = True
                 # add to the list
                 self._odeList.append(eqn)
+                # the compiled functions no longer match the model
+                self._hasNewTransition.trip()
             else:
                 raise InputError("Input is not a transition of an ode")
         else:
